@@ -104,6 +104,9 @@ type Stats struct {
 	Labels      map[string]int64 `json:"labels"`
 	Samples     []sampleEntry    `json:"samples"`
 	Excluded    map[string]int64 `json:"excluded_known"`
+	// ExtraDistinct counts non-trivial cases that are distinct by construction
+	// (exhaustive enumerations) and therefore not hashed.
+	ExtraDistinct int64 `json:"extra_distinct"`
 	Exhaustive  map[string]any   `json:"exhaustive,omitempty"`
 	Notes       []string         `json:"notes,omitempty"`
 	hashSet     map[uint64]struct{}
@@ -409,9 +412,7 @@ func (p *Prop[C]) One(c C) *Failure {
 	if err != nil {
 		panic(fmt.Sprintf("case not serialisable: %v", err))
 	}
-	rf, _ := json.Marshal(replayFile{Property: p.ID, Check: p.Name, Case: raw})
-	journal := filepath.Join(outDir(), fmt.Sprintf("journal-%d.json", os.Getpid()))
-	writeFileAtomic(journal, rf)
+	writeJournal(p.ID, p.Name, raw)
 
 	x := &Ctx{}
 	wdStart.Store(time.Now().UnixNano())
@@ -486,4 +487,93 @@ func RunReplay(t *testing.T) {
 		t.Fatalf("replay fails: %s", f.Class)
 	}
 	fmt.Println("REPLAY-RESULT ok")
+}
+
+// RequireOracle runs the oracle self-test once per process; a broken oracle
+// ends the process with status 4 (the driver reports "inconclusive").
+var oracleOnce sync.Once
+
+func RequireOracle() {
+	oracleOnce.Do(func() {
+		if err := OracleSelfTest(); err != nil {
+			fmt.Fprintln(os.Stderr, "ORACLE-SELFTEST-FAILED:", err)
+			os.Exit(4)
+		}
+	})
+}
+
+// AddEnumerated accounts n cases of an exhaustive enumeration, of which
+// nontrivial are non-trivial; they are pairwise distinct by construction.
+func (s *Stats) AddEnumerated(n, nontrivial int64) {
+	s.mu.Lock()
+	s.Cases += n
+	s.NonTrivial += nontrivial
+	s.ExtraDistinct += nontrivial
+	s.mu.Unlock()
+}
+
+// AddSample stores a sample case without counting it.
+func (s *Stats) AddSample(c any) {
+	s.mu.Lock()
+	if len(s.Samples) < 6 {
+		s.Samples = append(s.Samples, sampleEntry{uint64(len(s.Samples)), c})
+	}
+	s.mu.Unlock()
+}
+
+// WriteFailure stores a replay file for a failure found outside Prop.One.
+func WriteFailure(id, check string, c any, f *Failure) {
+	raw, _ := json.Marshal(c)
+	out, _ := json.MarshalIndent(replayFile{Property: id, Check: check, Failure: f, Case: raw}, "", " ")
+	writeFileAtomic(filepath.Join(outDir(), fmt.Sprintf("fail-%s-%d.json", id, os.Getpid())), out)
+}
+
+var (
+	journalFile *os.File
+	journalLen  int
+	journalBuf  []byte
+)
+
+// writeJournal records the case about to run, with one pwrite (the file is
+// kept open; it is truncated only when the new record is shorter).
+func writeJournal(id, check string, raw []byte) {
+	journalMu.Lock()
+	defer journalMu.Unlock()
+	if journalFile == nil {
+		f, err := os.Create(filepath.Join(outDir(), fmt.Sprintf("journal-%d.json", os.Getpid())))
+		if err != nil {
+			return
+		}
+		journalFile = f
+	}
+	b := journalBuf[:0]
+	b = append(b, `{"property":"`...)
+	b = append(b, id...)
+	b = append(b, `","check":"`...)
+	b = append(b, check...)
+	b = append(b, `","case":`...)
+	b = append(b, raw...)
+	b = append(b, '}')
+	journalBuf = b
+	journalFile.WriteAt(b, 0)
+	if len(b) < journalLen {
+		journalFile.Truncate(int64(len(b)))
+	}
+	journalLen = len(b)
+}
+
+// Try evaluates one case of an enumeration: no journal, no statistics. A
+// failure that is not a known finding is written as a replay file.
+func (p *Prop[C]) Try(c C) *Failure {
+	p.init()
+	f := p.exec(c, &Ctx{})
+	if f == nil {
+		return nil
+	}
+	if kf, ok := KnownOpen(p.ID, f.Class); ok {
+		p.stats.AddExcluded(kf.ID)
+		return nil
+	}
+	WriteFailure(p.ID, p.Name, c, f)
+	return f
 }
